@@ -1417,11 +1417,6 @@ Require Verif.Tie.HexRange.
 Require Verif.Tie.MavenRange.
 Require Verif.Tie.NugetRange.
 Require Verif.Tie.PypiRange.
-Require Verif.Tie.Loops.CargoRange.
-Require Verif.Tie.Loops.ConanRange.
-Require Verif.Tie.Loops.HexRange.
-Require Verif.Tie.Loops.NugetRange.
-Require Verif.Tie.Loops.PypiRange.
 Definition C05_tie_cargo_caret := Verif.Tie.CargoRange.tie_cargo_caret.
 Print Assumptions C05_tie_cargo_caret.
 Definition C05_tie_cargo_tilde := Verif.Tie.CargoRange.tie_cargo_tilde.
@@ -1464,44 +1459,4 @@ Definition C05_tie_pypi_VersionRange_String := Verif.Tie.PypiRange.tie_pypi_Vers
 Print Assumptions C05_tie_pypi_VersionRange_String.
 Definition C05_tie_pypi_VersionRange_Contains := Verif.Tie.PypiRange.tie_pypi_VersionRange_Contains.
 Print Assumptions C05_tie_pypi_VersionRange_Contains.
-Definition C05_tie_loops_cargo_countVersionComponents := Verif.Tie.Loops.CargoRange.tie_loops_cargo_countVersionComponents.
-Print Assumptions C05_tie_loops_cargo_countVersionComponents.
-Definition C05_tie_loops_cargo_countVersionComponents_range := Verif.Tie.Loops.CargoRange.loops_cargo_countVersionComponents_range.
-Print Assumptions C05_tie_loops_cargo_countVersionComponents_range.
-Definition C05_tie_compare_closed := Verif.Tie.Loops.CargoRange.compare_closed.
-Print Assumptions C05_tie_compare_closed.
-Definition C05_tie_cargo_caret_closed := Verif.Tie.Loops.CargoRange.tie_cargo_caret_closed.
-Print Assumptions C05_tie_cargo_caret_closed.
-Definition C05_tie_cargo_tilde_closed := Verif.Tie.Loops.CargoRange.tie_cargo_tilde_closed.
-Print Assumptions C05_tie_cargo_tilde_closed.
-Definition C05_tie_cargo_satisfiesConstraint_closed := Verif.Tie.Loops.CargoRange.tie_cargo_satisfiesConstraint_closed.
-Print Assumptions C05_tie_cargo_satisfiesConstraint_closed.
-Definition C05_tie_cargo_satisfiesConstraint_counted := Verif.Tie.Loops.CargoRange.tie_cargo_satisfiesConstraint_counted.
-Print Assumptions C05_tie_cargo_satisfiesConstraint_counted.
-Definition C05_tie_loops_conan_tildeMatch := Verif.Tie.Loops.ConanRange.tie_loops_conan_tildeMatch.
-Print Assumptions C05_tie_loops_conan_tildeMatch.
-Definition C05_tie_loops_conan_caretMatch := Verif.Tie.Loops.ConanRange.tie_loops_conan_caretMatch.
-Print Assumptions C05_tie_loops_conan_caretMatch.
-Definition C05_tie_tildeMatch_total_model := Verif.Tie.Loops.ConanRange.tildeMatch_total_model.
-Print Assumptions C05_tie_tildeMatch_total_model.
-Definition C05_tie_caretMatch_total_model := Verif.Tie.Loops.ConanRange.caretMatch_total_model.
-Print Assumptions C05_tie_caretMatch_total_model.
-Definition C05_tie_conan_contains_closed := Verif.Tie.Loops.ConanRange.tie_conan_contains_closed.
-Print Assumptions C05_tie_conan_contains_closed.
-Definition C05_tie_hex_matches_closed := Verif.Tie.Loops.HexRange.tie_hex_matches_closed.
-Print Assumptions C05_tie_hex_matches_closed.
-Definition C05_tie_hex_contains_closed := Verif.Tie.Loops.HexRange.tie_hex_contains_closed.
-Print Assumptions C05_tie_hex_contains_closed.
-Definition C05_tie_hex_contains_closed_model_ident := Verif.Tie.Loops.HexRange.tie_hex_contains_closed_model_ident.
-Print Assumptions C05_tie_hex_contains_closed_model_ident.
-Definition C05_tie_nuget_matches_closed := Verif.Tie.Loops.NugetRange.tie_nuget_matches_closed.
-Print Assumptions C05_tie_nuget_matches_closed.
-Definition C05_tie_nuget_contains_closed := Verif.Tie.Loops.NugetRange.tie_nuget_contains_closed.
-Print Assumptions C05_tie_nuget_contains_closed.
-Definition C05_tie_nuget_contains_closed_model_num := Verif.Tie.Loops.NugetRange.tie_nuget_contains_closed_model_num.
-Print Assumptions C05_tie_nuget_contains_closed_model_num.
-Definition C05_tie_pypi_matches_closed := Verif.Tie.Loops.PypiRange.tie_pypi_matches_closed.
-Print Assumptions C05_tie_pypi_matches_closed.
-Definition C05_tie_pypi_contains_closed := Verif.Tie.Loops.PypiRange.tie_pypi_contains_closed.
-Print Assumptions C05_tie_pypi_contains_closed.
 (* ====== ties to the source: END ====== *)
